@@ -179,6 +179,7 @@ func TestReplay(t *testing.T) {
 	if path == "" {
 		t.Skip("VERIF_REPLAY not set")
 	}
+	bubbleT = t
 	b, err := os.ReadFile(path)
 	if err != nil {
 		t.Fatalf("cannot read replay file: %v", err)
